@@ -125,6 +125,9 @@ func main() {
 		return
 	}
 	switch stream {
+	case "optable":
+		out.Flush()
+		optableDump(*outFile)
 	case "cpu1":
 		cpu1(*seed, *n, *tier)
 	case "dump":
